@@ -12,6 +12,7 @@ PROPS = {
         "rule": "one evaluation = one seeded operation sequence (quick 50-300 ops, thorough 300-3000) of Add/Delete/RootHash/Commit/Evict(commit|nocommit)/Reload/transaction-commit with crash and storage faults, "
                 "over a drawn key universe (6-10 short keys of length 1-6 over a 2-12 symbol alphabet incl. 0x00/0xff, or a pool of 8-2048 32-byte / catchpoint-shaped 37-byte keys with shared prefixes) "
                 "and a drawn MemoryConfig (NodesCountPerPage 2-512, CachedNodesCount 0-9000, PageFillFactor 0-1, MaxChildrenPagesThreshold 0-64, optionally re-drawn at every reload); "
+                "fault kinds (each on with probability 1/2 per run): crash, StorePage error (all / k-th / root page only), LoadPage error (all / k-th), silently lost k-th page write followed by a crash; "
                 "non-trivial = at least one commit/evict/reload happened inside the sequence AND a root-hash check passed on a non-empty set; distinct = distinct canonical event-log digest; "
                 "distinct_states = distinct (reference root of the set, memory config) pairs sampled at root checks (at most 6 per run, reporting capped at 20000 per worker)",
         "components": {
@@ -33,7 +34,9 @@ PROPS = {
         "level_text": "Seeded search over add/delete/commit/evict/reload/crash interleavings, key shapes and page configurations against the real merkletrie; the root hash is compared with an independently written "
                       "reference over the element set at every root check and after every reload, Add/Delete results with a Go map, and the reloaded trie with the set as of the last transaction commit. Sampling evidence, not proof.",
         "level_note": "Trusted: SHA-512/256, the simulated committer's transactional semantics (crash granularity = storage transaction). Fault steps always end in rollback + reload because whether an injected "
-                      "page-load error is hit depends on the trie's map-order-dependent page layout. Known finding on the unchanged tree: C17/evict-drops-partial-tail-page (small CachedNodesCount only).",
+                      "page-load error is hit depends on the trie's map-order-dependent page layout. Known finding on the unchanged tree: C17/evict-drops-partial-tail-page (findings/C17-evict-tail-page; small CachedNodesCount only); "
+                      "half of the runs step around its precondition (not logged, map-order dependent) to keep full sensitivity, the other half exposes it; violations are attributed to it only after a commit ran in the hazardous state "
+                      "(read-only hook hooks/crypto/merkletrie/verif_export.go).",
         "design_ref": "DESIGN.md §4 C17",
     },
 }
